@@ -66,7 +66,18 @@ Definition reply_frame (h : hdr) (data : list N) : list N :=
 Definition bump (i : nat) (f : list N) : list N :=
   firstn i f ++ match skipn i f with [] => [] | b :: r => ((b + 1) mod 256) :: r end.
 
-Definition sym_event (h : hdr) (k : N) : event :=
+(* the request itself, as written to the wire (an echoed / looped-back request) *)
+Definition request_frame (h : hdr) (p : list N) : list N :=
+  let b1 := (netfn h * 4 + rs_lun h) mod 256 in
+  let body := [rq_sa h; (rq_seq h * 4 + rq_lun h) mod 256; cmdid h] ++ p in
+  [rs_sa h; b1; checksum [rs_sa h; b1]] ++ body ++ [checksum body].
+(* reply layout with an arbitrary network function value *)
+Definition reply_frame_nf (h : hdr) (nf : N) (data : list N) : list N :=
+  let b1 := (nf * 4 + rq_lun h) mod 256 in
+  let body := [rs_sa h; (rq_seq h * 4 + rs_lun h) mod 256; cmdid h] ++ data in
+  [rq_sa h; b1; checksum [rq_sa h; b1]] ++ body ++ [checksum body].
+
+Definition sym_event (h : hdr) (p : list N) (k : N) : event :=
   let d := [0; 160 + k] in
   match k with
   | 0 => Frame (reply_frame h d)                                                        (* matching reply *)
@@ -81,12 +92,15 @@ Definition sym_event (h : hdr) (k : N) : event :=
   | 9 => Nothing
   | 10 => OsError
   | 11 => Frame (wrap_reply (mkWrap (rq_sa h) 0 0x20 0 (rq_seq h)) 0 (reply_frame h d)) (* reply inside a Send Message response *)
-  | _ => Frame (wrap_reply (mkWrap (rq_sa h) 0 0x20 0 (rq_seq h)) 0xc3 [])              (* failing Send Message response *)
+  | 12 => Frame (wrap_reply (mkWrap (rq_sa h) 0 0x20 0 (rq_seq h)) 0xc3 [])             (* failing Send Message response *)
+  | 13 => Frame (request_frame h p)                                                     (* the request itself, echoed *)
+  | 14 => Frame (reply_frame_nf h (netfn h) d)             (* reply layout, everything matching, but the REQUEST netfn *)
+  | _ => Frame (reply_frame_nf h (N.lxor (N.lor (netfn h) 1) (2 ^ (k - 14))) d)         (* 15..19: netfn bit 1..5 flipped *)
   end.
 
-Definition chk_sym (h : list N) (k : N) (exp : option (list N)) : bool :=
+Definition chk_sym (h p : list N) (k : N) (exp : option (list N)) : bool :=
   let hd := match h with [a; b; c; d; e; f; g] => mkHdr a b c d e f g | _ => mkHdr 0 0 0 0 0 0 0 end in
-  match sym_event hd k, exp with
+  match sym_event hd p k, exp with
   | Frame f, Some e => bytes_eqb f e
   | Nothing, None => true
   | OsError, None => true
@@ -102,17 +116,17 @@ Fixpoint words (alpha : list N) (n : nat) : list (list N) :=
   end.
 
 (* one run packed into a number:
-   outcome: 0..15 = Ok [0; 160 + k] (payload of symbol k), 16 = any other Ok, 17 RetryError,
-            18 TimeoutError, 19 DecodingError, 20 CCError, 21 other error *)
+   outcome: 0..31 = Ok [0; 160 + k] (payload of symbol k), 32 = any other Ok, 33 RetryError,
+            34 TimeoutError, 35 DecodingError, 36 CCError, 37 other error *)
 Definition out_code (o : res (list N)) : N :=
   match o with
-  | Ok [0; t] => if (160 <=? t) && (t <? 176) then t - 160 else 16
-  | Ok _ => 16
-  | Err RetryError => 17
-  | Err TimeoutError => 18
-  | Err DecodingError => 19
-  | Err (CCError _) => 20
-  | Err _ => 21
+  | Ok [0; t] => if (160 <=? t) && (t <? 192) then t - 160 else 32
+  | Ok _ => 32
+  | Err RetryError => 33
+  | Err TimeoutError => 34
+  | Err DecodingError => 35
+  | Err (CCError _) => 36
+  | Err _ => 37
   end.
 Definition pack (o : res (list N)) (nsent qlen unread : nat) : N :=
   ((out_code o * 16 + N.of_nat nsent) * 16 + N.of_nat qlen) * 16 + N.of_nat unread.
@@ -136,10 +150,11 @@ Definition run_events (k : kind) (mr : nat) (ign : bool) (slave seq0 : N) (q : r
     if all_eq tx sent then pack o (length sent) 0 (length rest) else 999999
   end.
 
-(* the events of a word, looked up in the table of the 13 symbols (computed once) *)
+(* the events of a word, looked up in the table of the 20 symbols (computed once) *)
 Definition word_events (tbl : list event) (w : list N) : list event :=
   map (fun k => nth (N.to_nat k) tbl Nothing) w.
-Definition sym_table (h : hdr) : list event := map (sym_event h) [0; 1; 2; 3; 4; 5; 6; 7; 8; 9; 10; 11; 12].
+Definition sym_table (h : hdr) (p : list N) : list event :=
+  map (sym_event h p) [0; 1; 2; 3; 4; 5; 6; 7; 8; 9; 10; 11; 12; 13; 14; 15; 16; 17; 18; 19].
 
 Definition run_word (k : kind) (ign : bool) (slave seq0 : N) (q : rxreq) (tx : list N)
            (tbl : list event) (w : list N) : list N :=
@@ -151,7 +166,7 @@ Definition run_word (k : kind) (ign : bool) (slave seq0 : N) (q : rxreq) (tx : l
 Definition sweep_codes (k : kind) (ign : bool) (slave seq0 : N) (ql : list N) (p tx : list N)
            (alpha prefix : list N) (n : nat) : list N :=
   let q := mkq ql [] p in
-  let tbl := sym_table (rmcp_header (inc_seq seq0) slave q) in
+  let tbl := sym_table (rmcp_header (inc_seq seq0) slave q) p in
   flat_map (fun t => run_word k ign slave seq0 q tx tbl (prefix ++ t)) (words alpha n).
 
 Definition chk_sweep (k : kind) (ign : bool) (slave seq0 : N) (ql : list N) (p tx : list N)
@@ -162,5 +177,5 @@ Definition chk_sweep (k : kind) (ign : bool) (slave seq0 : N) (ql : list N) (p t
 Definition chk_word (k : kind) (ign : bool) (slave seq0 : N) (ql : list N) (p tx : list N)
            (w : list N) (exp : list N) : bool :=
   let q := mkq ql [] p in
-  let tbl := sym_table (rmcp_header (inc_seq seq0) slave q) in
+  let tbl := sym_table (rmcp_header (inc_seq seq0) slave q) p in
   list_eqb N.eqb (run_word k ign slave seq0 q tx tbl w) exp.
